@@ -102,19 +102,34 @@ def c05_macros(order: int, split: int, mname: int, vkind: int, ncalls: int,
   return True
 
 
-def c05_unevaluated(form: int, defined: bool) -> bool:
+def c05_unevaluated(form: int, defined: bool, use: int, other: int) -> bool:
   """
-  pre: 0 <= form < 3
+  pre: 0 <= form < 3 and 0 <= use < 5 and 0 <= other < 3
   """
   world.fresh()
   form = rt.pick(form, 3)
   defined = rt.flag(defined)
-  rt.sig(('uneval', form, defined), nontrivial=True)
+  use = rt.pick(use, 5)       # proper %m uses of the SAME macro: none / before / after / both / nested before
+  other = rt.pick(other, 3)   # an unrelated, well-formed macro: none / before / after
+  rt.sig(('uneval', form, defined, use, other), nontrivial=True)
   with rt.native():
+    bad = ['vw.lit.p = @m/gin.macro', 'vw.lit.p = [@m/gin.macro]', "vw.lit.q = {'k': @m/macro}"][form]
+    stmts = []
+    if other == 1:
+      stmts += ['n = 1', 'vw.dflt.a = %n']
+    if use in (1, 3):
+      stmts.append('vw.cons.p = %m')
+    if use == 4:
+      stmts.append("vw.cons.q = [1, {'k': (%m, %m)}]")
+    stmts.append(bad)
+    if use in (2, 3):
+      stmts.append('vw.cons.q = %m')
+    if other == 2:
+      stmts += ['n = 1', 'vw.dflt.a = %n']
     if defined:
-      gin.parse_config('m = 3')
-    gin.parse_config(['vw.cons.p = @m/gin.macro', 'vw.cons.p = [@m/gin.macro]',
-                      "vw.cons.q = {'k': @m/macro}"][form])
+      stmts.insert(len(stmts) // 2, 'm = 3')
+    for st in stmts:
+      gin.parse_config(st)
   try:
     gin.finalize()
     return False
@@ -211,9 +226,11 @@ HARNESSES = {
                'macro (tuple key, via constant in text, to @src(), %name key); 1-2 consumer calls; values: all ints'),
     'c05_unevaluated': dict(
         fn='c05_unevaluated', anchors=['gin.config:validate_reference'],
-        smoke=[dict(form=0, defined=True)],
-        tiers={'quick': dict(split={}, budget_s=60), 'thorough': dict(split={}, budget_s=60)},
-        bounds='3 placements of an unevaluated macro reference x bound or not'),
+        smoke=[dict(form=0, defined=True, use=1, other=0), dict(form=2, defined=False, use=4, other=2)],
+        tiers={'quick': dict(split=dict(use=[0, 1, 2, 3, 4]), budget_s=60),
+               'thorough': dict(split=dict(use=[0, 1, 2, 3, 4], form=[0, 1, 2]), budget_s=60)},
+        bounds='3 placements of an unevaluated macro reference x bound or not x proper uses of the same macro '
+               'before / after / both / nested x an unrelated macro before / after'),
     'c05_constants': dict(
         fn='c05_constants',
         anchors=['gin.config:constant', 'gin.config:_retrieve_constant', 'gin.config:macro'],
